@@ -533,6 +533,12 @@ class Closing(State):
             self.event_peer_disc()
             return
 
+        #: One call sends one batch: what was still queued when the stop came
+        #: - the DPR itself, behind everything submitted before it - goes on
+        #: being written here.
+        if self.has_send_queue_message():
+            self.send_message()
+
         if self.has_recv_queue_message():
             self.msg = self.get_message()
 
